@@ -107,6 +107,121 @@ def _run_concrete(stmts, env):
     return r
 
 
+def _zcross_sign_domain(chk, zc, where):
+    """the remembered sign is only ever -1, 0 or 1 where a sample is multiplied by it (flow of abstract values
+    'zero' / 'unit' / 'raw' through every form of the function: two loops, one merged loop, copies of first_sign)"""
+    chk.rule("C20.sign", "zcross: where a sample is multiplied by the remembered sign (el * last_sign < -h) that sign is -1 or "
+                         "1 (0 before it is known) on every path - a first_sign of any magnitude only contributes its sign, "
+                         "otherwise the hysteresis band is scaled by |first_sign|")
+    params = {a.arg for a in zc.args.args}
+    loopvars = {n.target.id for n in ast.walk(zc) if isinstance(n, ast.For) and isinstance(n.target, ast.Name)}
+    signs = set()
+    for n in ast.walk(zc):
+        if isinstance(n, ast.BinOp) and isinstance(n.op, ast.Mult):
+            for a, b in ((n.left, n.right), (n.right, n.left)):
+                if isinstance(a, ast.Name) and a.id in loopvars and isinstance(b, ast.Name) and b.id not in loopvars \
+                        and b.id not in params:
+                    signs.add(b.id)
+    if len(signs) != 1:
+        return
+    sv = signs.pop()
+
+    def dom(e, state):
+        if isinstance(e, ast.Constant) and isinstance(e.value, (int, float)) and not isinstance(e.value, bool):
+            return {"zero"} if e.value == 0 else {"unit"} if abs(e.value) == 1 else {"raw"}
+        if isinstance(e, ast.UnaryOp) and isinstance(e.op, (ast.USub, ast.UAdd)):
+            return dom(e.operand, state)
+        if isinstance(e, ast.IfExp):
+            a, b = dom(e.body, state), dom(e.orelse, state)
+            return None if a is None or b is None else a | b
+        if isinstance(e, ast.Name) and e.id == sv:
+            return set(state)
+        if isinstance(e, ast.Name) and e.id in params:
+            return {"raw", "zero"}          # any signed number
+        return None                         # a spelling this rule does not read (copysign, arithmetic ...)
+
+    def refine(test, state, taken):
+        if isinstance(test, ast.UnaryOp) and isinstance(test.op, ast.Not):
+            return refine(test.operand, state, not taken)
+        if isinstance(test, ast.BoolOp):
+            conj = isinstance(test.op, ast.And)
+            if conj == taken:
+                for v in test.values:
+                    state = refine(v, state, taken)
+            return state
+        if isinstance(test, ast.Name) and test.id == sv:
+            return (state - {"zero"}) if taken else ({"zero"} if state & {"zero", "raw"} else set())
+        if isinstance(test, ast.Compare) and len(test.ops) == 1 and isinstance(test.ops[0], (ast.Eq, ast.NotEq, ast.Is, ast.IsNot)):
+            l, r = test.left, test.comparators[0]
+            if isinstance(r, ast.Name) and r.id == sv:
+                l, r = r, l
+            if isinstance(l, ast.Name) and l.id == sv and isinstance(r, ast.Constant) and r.value == 0 \
+                    and not isinstance(r.value, bool):
+                eq = isinstance(test.ops[0], (ast.Eq, ast.Is)) == taken
+                return ({"zero"} if state & {"zero", "raw"} else set()) if eq else (state - {"zero"})
+        return state
+
+    uses, unknown = [], []
+
+    def expr_uses(e, state):
+        for n in ast.walk(e):
+            if isinstance(n, ast.BinOp) and isinstance(n.op, ast.Mult) and any(
+                    isinstance(x, ast.Name) and x.id == sv for x in (n.left, n.right)) and any(
+                    isinstance(x, ast.Name) and x.id in loopvars for x in (n.left, n.right)):
+                uses.append((n, set(state)))
+
+    def flow(stmts, state):
+        for st in stmts:
+            if state is None:
+                return None
+            if isinstance(st, ast.Assign) and len(st.targets) == 1 and isinstance(st.targets[0], ast.Name) and st.targets[0].id == sv:
+                expr_uses(st.value, state)
+                d = dom(st.value, state)
+                if d is None:
+                    unknown.append(st)
+                    d = {"unit", "zero"}
+                state = d
+            elif isinstance(st, ast.If):
+                tstate = refine(st.test, state, True)
+                # the tests of an if / elif chain see the state the earlier tests left
+                expr_uses(st.test, state)
+                a = flow(st.body, tstate)
+                b = flow(st.orelse, refine(st.test, state, False))
+                state = b if a is None else a if b is None else a | b
+            elif isinstance(st, (ast.For, ast.While)):
+                s0 = set(state)
+                for _ in range(3):
+                    a = flow(st.body, set(s0))
+                    s1 = s0 | (a or set())
+                    if s1 == s0:
+                        break
+                    s0 = s1
+                state = flow(st.orelse, set(s0)) if st.orelse else s0
+                if state is None:
+                    state = s0
+            elif isinstance(st, (ast.Return, ast.Raise)):
+                return None
+            elif isinstance(st, (ast.With, ast.Try)):
+                state = flow(st.body, state)
+            elif isinstance(st, ast.Expr):
+                expr_uses(st.value, state)
+            elif any(isinstance(n, ast.Name) and n.id == sv and isinstance(n.ctx, ast.Store) for n in ast.walk(st)):
+                unknown.append(st)
+        return state
+    flow(docstring_free(zc.body), set())
+    seen = {}
+    for n, state in uses:
+        key = (n.lineno, n.col_offset)
+        seen[key] = (n, seen.get(key, (n, set()))[1] | state)
+    for n, state in seen.values():
+        chk.decide("raw" not in state, "C20.sign", where, "%s with %s in %s" % (unparse(n), sv, sorted(state)),
+                   why="the sign variable can still hold the caller's first_sign as given (any magnitude): the sample is "
+                       "scaled by |first_sign| in the comparison with the hysteresis threshold until the first crossing",
+                   node=n)
+    if unknown and not any("raw" in s_ for _, s_ in seen.values()):
+        chk.note("C20.sign", where, "sign bound by %s: taken as a sign (-1/0/1)" % "; ".join(short(u) for u in unknown))
+
+
 def run(chk, repo):
     amod, imod = repo.mod(LA), repo.mod(LI)
     WA = lambda q: "%s:%s" % (amod.relpath, q)
@@ -332,6 +447,7 @@ def run(chk, repo):
                 env[st.targets[0].id] = Evaluator(env).ev(st.value)
             except Inconclusive:
                 pass
+    _zcross_sign_domain(chk, zc, WA("zcross"))
     fs = [s for s in docstring_free(zc.body) if isinstance(s, ast.If)]
     # what last_sign holds before the test (a plain copy of first_sign, a sign expression, ...)
     pre = None
